@@ -226,7 +226,7 @@ class EvolvableResNet(EvolvableModule):
 
         # HARD LIMIT
         if self.channel_size + numb_new_channels < self.max_channel_size:
-            self.channel_size += numb_new_channels
+            self.channel_size += int(numb_new_channels)
 
         return {"numb_new_channels": numb_new_channels}
 
@@ -247,7 +247,7 @@ class EvolvableResNet(EvolvableModule):
 
         # HARD LIMIT
         if self.channel_size - numb_new_channels > self.min_channel_size:
-            self.channel_size -= numb_new_channels
+            self.channel_size -= int(numb_new_channels)
 
         return {"numb_new_channels": numb_new_channels}
 
